@@ -309,6 +309,8 @@ func TestVerifCsv(t *testing.T) {
 			t.Fatalf("bad scenario line: %v", err)
 		}
 		res := vcsvResult{ID: s.ID}
+		// a panic in the import's own goroutine kills the process: leave the scenario's id where the driver finds it
+		os.WriteFile(out+".cur", []byte(fmt.Sprint(s.ID)), 0644)
 		for k, render := range renders {
 			r := vcsvExec(s, render, k)
 			merged := false
@@ -330,7 +332,9 @@ func TestVerifCsv(t *testing.T) {
 		}
 		w.Write(b)
 		w.WriteByte('\n')
+		w.Flush()
 	}
+	os.Remove(out + ".cur")
 	if err := sc.Err(); err != nil {
 		t.Fatal(err)
 	}
